@@ -5,6 +5,7 @@ import (
 	"context"
 	"encoding/json"
 	"net/http"
+	"sync"
 
 	jsonrpc "github.com/filecoin-project/go-jsonrpc"
 
@@ -13,6 +14,7 @@ import (
 )
 
 type H struct {
+	mu      sync.Mutex
 	ctxs    map[int]context.Context
 	release map[int]chan struct{}
 	done    map[int]int
@@ -24,31 +26,31 @@ func newH() *H {
 }
 
 // Wait blocks until its context is cancelled or the harness releases it.
+func (h *H) set(f func()) { h.mu.Lock(); f(); h.mu.Unlock() }
+
 func (h *H) Wait(ctx context.Context, tag int) (int, error) {
-	h.ctxs[tag] = ctx
-	h.started[tag]++
+	h.set(func() { h.ctxs[tag] = ctx; h.started[tag]++ })
 	select {
 	case <-ctx.Done():
-		h.done[tag] = 2
+		h.set(func() { h.done[tag] = 2 })
 		return 0, ctx.Err()
 	case <-h.release[tag]:
-		h.done[tag] = 1
+		h.set(func() { h.done[tag] = 1 })
 		return tag, nil
 	}
 }
 
 // Stream returns a channel and keeps feeding it until its context is cancelled.
 func (h *H) Stream(ctx context.Context, tag int) (<-chan int, error) {
-	h.ctxs[tag] = ctx
-	h.started[tag]++
+	h.set(func() { h.ctxs[tag] = ctx; h.started[tag]++ })
 	out := make(chan int)
 	go func() {
 		defer close(out)
 		select {
 		case <-ctx.Done():
-			h.done[tag] = 2
+			h.set(func() { h.done[tag] = 2 })
 		case <-h.release[tag]:
-			h.done[tag] = 1
+			h.set(func() { h.done[tag] = 1 })
 		}
 	}()
 	return out, nil
@@ -248,4 +250,62 @@ func HarnessHTTPCancel() {
 	verif.Assert(ret == 1, "http-call-returns")
 	closer()
 	verif.Reach("http-cancel-done")
+}
+
+type CS struct {
+	Wait   func(ctx context.Context, tag int) (int, error)
+	Stream func(ctx context.Context, tag int) (<-chan int, error)
+}
+
+// HarnessSubscriptionCancel: real client and real server. A plain call is in
+// flight and (optionally after other calls, so that request ids and channel ids
+// differ) a subscription is established; cancelling the subscription's context
+// cancels exactly the subscription handler's context, after the subscribing call
+// returned, and leaves the other call alone.
+func HarnessSubscriptionCancel() {
+	h := newH()
+	for i := 0; i < 4; i++ {
+		h.release[i] = make(chan struct{})
+	}
+	srv := jsonrpc.NewServer()
+	srv.Register("H", h)
+	url, stop := verif.ServeWS(srv)
+	var c CS
+	closer, err := jsonrpc.NewMergeClient(context.Background(), url, "H", []interface{}{&c}, nil)
+	verif.Assert(err == nil, "client-created")
+	pre := verif.Choice("calls_before", 3) // shifts request ids relative to channel ids
+	waitRet := 0
+	for i := 0; i < pre; i++ {
+		i := i
+		go func() { c.Wait(context.Background(), i); waitRet++ }()
+	}
+	verif.Quiesce()
+	subCtx, cancelSub := context.WithCancel(context.Background())
+	ch, serr := c.Stream(subCtx, 3)
+	verif.Assert(serr == nil && ch != nil, "subscription-established")
+	closed := 0
+	go func() {
+		for range ch {
+		}
+		closed++
+	}()
+	verif.Quiesce()
+	verif.Assert(h.ctxs[3] != nil && h.ctxs[3].Err() == nil, "subscription-context-live-before-cancel")
+	cancelSub()
+	verif.Quiesce()
+	verif.Assert(h.ctxs[3] != nil && h.ctxs[3].Err() != nil, "cancelling-subscription-context-cancels-its-handler")
+	verif.Assert(closed == 1, "cancelled-subscription-channel-closed")
+	for i := 0; i < pre; i++ {
+		verif.Assert(h.ctxs[i] != nil && h.ctxs[i].Err() == nil, "other-calls-context-live")
+	}
+	verif.Assert(waitRet == 0, "other-calls-still-in-flight")
+	for i := 0; i < pre; i++ {
+		close(h.release[i])
+	}
+	verif.Quiesce()
+	verif.Assert(waitRet == pre, "other-calls-complete-normally")
+	closer()
+	stop()
+	verif.Quiesce()
+	verif.Reach("subscription-cancel-done")
 }
